@@ -86,6 +86,21 @@ def get_source_lines(filepath: str) -> list[str]:
         return f.read().split("\n")
 
 
+def byte_offset_to_column(filepath: str, line: int, offset: int) -> int:
+    """
+    Mypy, like the `ast` module, counts columns in UTF-8 bytes, whereas editors (and
+    whoever reads the output) count characters. They only differ on lines that contain
+    non-ASCII text.
+    """
+
+    lines = get_source_lines(filepath)
+
+    if offset <= 0 or not 0 < line <= len(lines) or lines[line - 1].isascii():
+        return offset
+
+    return len(lines[line - 1].encode()[:offset].decode(errors="ignore"))
+
+
 def is_ignored_via_comment(error: Error) -> bool:
     assert error.filename
 
@@ -218,6 +233,9 @@ def run_refurb(settings: Settings) -> Sequence[Error | str]:
 
         for error in visitor.errors:
             error.filename = file.path
+
+            if file.path:
+                error.column = byte_offset_to_column(file.path, error.line, error.column)
 
         errors += visitor.errors
 
